@@ -321,8 +321,20 @@ pub fn conv_ty(t: &Type, adts: &dyn Fn(&str) -> Option<Ty>, generics: &BTreeSet<
                 "Range" => Ok(Ty::Range(Box::new(arg1(seg)?))),
                 "RangeInclusive" => Ok(Ty::RangeIncl(Box::new(arg1(seg)?))),
                 n if p.path.segments.len() == 1 && generics.contains(n) => Ok(Ty::Param(name)),
+                // `I::Item`: an associated type of a generic parameter, a type variable of its own (`tyvar I::Item <coq type>`)
+                _ if p.path.segments.len() == 2 && generics.contains(&p.path.segments[0].ident.to_string()) && matches!(seg.arguments, PathArguments::None) => {
+                    Ok(Ty::Param(format!("{}::{}", p.path.segments[0].ident, name)))
+                }
                 n if adts(n).is_some() => Ok(adts(n).unwrap()),
                 _ => Err(unsupported(t, &format!("type `{}` (not an integer/bool/Option/tuple/range and not in the configured struct/enum table)", name))),
+            }
+        }
+        Type::Path(_) => {
+            // `<X as Trait>::Assoc`: only through a `tymap` line of functions.txt
+            let toks: String = quote::ToTokens::to_token_stream(t).to_string().chars().filter(|c| !c.is_whitespace()).collect();
+            match adts(&format!("qself:{}", toks)) {
+                Some(ty) => Ok(ty),
+                None => Err(unsupported(t, &format!("qualified type `{}` (give `tymap {} <configured type>`)", toks, toks))),
             }
         }
         _ => Err(unsupported(t, "type form")),
@@ -423,8 +435,15 @@ impl<'ast, 'm> Visit<'ast> for EffVisitor<'m> {
     fn visit_expr_method_call(&mut self, i: &'ast ExprMethodCall) {
         let n = i.method.to_string();
         if self.mut_methods.contains(&n) || (n == "next" && i.args.is_empty()) || n == "get_mut" {
-            if let Some(r) = place_root(&i.receiver) {
-                self.eff.assigned.insert(r);
+            match place_root(&i.receiver) {
+                Some(r) => {
+                    self.eff.assigned.insert(r);
+                }
+                // a `&mut self` method on a temporary (a call result): still a call that has to be sequenced
+                None if self.mut_methods.contains(&n) && matches!(&*i.receiver, Expr::Call(_) | Expr::MethodCall(_)) => {
+                    self.eff.assigned.insert("<temporary>".into());
+                }
+                None => {}
             }
         }
         if n == "unwrap" && i.args.is_empty() && self.unwrap_is_exit && !matches!(&*i.receiver, Expr::MethodCall(r) if r.method == "try_into") {
